@@ -55,14 +55,73 @@ Proof. unfold search_keyword. destruct (go_upper_view key); [apply kw_find_value
 Lemma kw_class_is_class v : kw_class v = true -> is_class v = true.
 Proof. unfold kw_class. intros H. apply andb_true_iff in H. destruct H as [H _]. apply andb_true_iff in H. tauto. Qed.
 
+(* function names in the table have at least two bytes *)
+Lemma kw_find_function_len key :
+  kw_find sql_kwmap key = b_sqli_token_type_function -> 2 <= len key.
+Proof.
+  assert (S : forallb (fun e => negb (beq (snd (snd e)) b_sqli_token_type_function) || (2 <=? len (fst (snd e))))
+                      (PositiveMap.elements sql_kwmap) = true) by (vm_compute; reflexivity).
+  unfold kw_find. destruct (PositiveMap.find (encode key) sql_kwmap) as [[k v]|] eqn:F; [|discriminate].
+  destruct (bytes_eqb k key) eqn:E; [|discriminate]. intros ->.
+  apply PositiveMap.elements_correct in F. rewrite forallb_forall in S. specialize (S _ F). cbn [fst snd] in S.
+  apply bytes_eqb_eq in E. subst k. rewrite beq_refl in S. cbn in S. lia.
+Qed.
+
+Lemma go_upper_view_len s : forall u, go_upper_view s = Some u -> len u <= len s.
+Proof.
+  assert (G : forall n s, (List.length s <= n)%nat -> forall u, go_upper_view s = Some u -> len u <= len s).
+  { induction n as [|n IH]; intros s0 Hn u H.
+    - destruct s0; [|cbn in Hn; lia]. cbn in H. inversion H. lia.
+    - destruct s0 as [|b s']; [cbn in H; inversion H; lia|].
+      cbn [go_upper_view] in H. cbn [List.length] in Hn.
+      destruct (is_ascii b).
+      + destruct (go_upper_view s') as [u'|] eqn:E; [|discriminate]. cbn in H. inversion H; subst.
+        rewrite !len_cons. specialize (IH s' ltac:(lia) u' E). lia.
+      + destruct s' as [|b2 s'']; [discriminate|]. cbn [List.length] in Hn.
+        assert (J : forall c, option_map (cons c) (go_upper_view s'') = Some u -> len u <= len (b :: b2 :: s'')).
+        { intros c Hc. destruct (go_upper_view s'') as [u'|] eqn:E; [|discriminate]. cbn in Hc. inversion Hc; subst.
+          rewrite !len_cons. specialize (IH s'' ltac:(lia) u' E). lia. }
+        destruct (beq b xc5 && beq b2 xbf); [eapply J; exact H|].
+        destruct (beq b xc4 && beq b2 xb1); [eapply J; exact H|]. discriminate. }
+  intros u. apply (G (List.length s) s). lia.
+Qed.
+
+Lemma search_keyword_function_len key :
+  search_keyword key = b_sqli_token_type_function -> 2 <= len key.
+Proof.
+  unfold search_keyword. destruct (go_upper_view key) as [u|] eqn:E; [|discriminate].
+  intros H. apply kw_find_function_len in H. apply go_upper_view_len in E. lia.
+Qed.
+
 (* ---------- the token specification ---------- *)
 
 (* a token that lies inside [lo, hi) of the input and whose value is exactly the
    input bytes at its recorded offset *)
+Definition first_is (v : bytes) (c : byte) : bool :=
+  match v with b :: _ => beq b c | [] => false end.
+
+(* class character documented; function names have >= 2 bytes; comments are
+   non-empty, and a comment that starts with '/' has >= 2 bytes *)
+Definition class_ok (c : byte) (n : Z) (v : bytes) : bool :=
+  is_class c
+  && (negb (beq c b_sqli_token_type_function) || (2 <=? n))
+  && (negb (beq c b_sqli_token_type_comment) || ((1 <=? n) && (negb (first_is v x2f) || (2 <=? n)))).
+
 Definition tok_at (inp : bytes) (lo hi : Z) (t : token) : Prop :=
   lo <= t_pos t /\ 0 <= t_len t /\ t_pos t + t_len t <= hi /\ t_len t < c_token_size /\
   t_val t = firstn (Z.to_nat (t_len t)) (skipn (Z.to_nat (t_pos t)) inp) /\
-  is_class (t_cat t) = true.
+  class_ok (t_cat t) (t_len t) (t_val t) = true.
+
+Lemma class_ok_is_class c n v : class_ok c n v = true -> is_class c = true.
+Proof. unfold class_ok. intros H. apply andb_true_iff in H. destruct H as [H _]. apply andb_true_iff in H. tauto. Qed.
+
+Lemma tok_at_class inp lo hi t : tok_at inp lo hi t -> is_class (t_cat t) = true.
+Proof. intros (_ & _ & _ & _ & _ & H). eapply class_ok_is_class. exact H. Qed.
+
+Lemma class_ok_plain c n v :
+  is_class c = true -> beq c b_sqli_token_type_function = false -> beq c b_sqli_token_type_comment = false ->
+  class_ok c n v = true.
+Proof. unfold class_ok. intros -> -> ->. reflexivity. Qed.
 
 Lemma tok_at_len inp lo hi t : 0 <= lo -> hi <= len inp -> tok_at inp lo hi t -> len (t_val t) = t_len t.
 Proof.
@@ -104,6 +163,16 @@ Proof.
   eapply tok_at_weaken; [| |exact F]; lia.
 Qed.
 
+Lemma class_ok_kw c n v :
+  kw_class c = true -> (c = b_sqli_token_type_function -> 2 <= n) -> class_ok c n v = true.
+Proof.
+  unfold kw_class, class_ok. intros H Hf.
+  apply andb_true_iff in H. destruct H as [H H3]. apply andb_true_iff in H. destruct H as [H1 H2].
+  rewrite H1. apply negb_true_iff in H2. rewrite H2. cbn [negb orb andb].
+  destruct (beq c b_sqli_token_type_function) eqn:E; [|reflexivity].
+  apply beq_eq in E. specialize (Hf E). cbn [negb orb]. replace (2 <=? n) with true by lia. reflexivity.
+Qed.
+
 (* ---------- assign ---------- *)
 
 Lemma assign_ok t ty p length value :
@@ -123,12 +192,13 @@ Proof. apply firstn_firstn. Qed.
 
 (* the token written by assign from a suffix of the input *)
 Lemma tok_at_assign inp lo hi p length ty cnt o c :
-  0 <= lo <= p -> 0 <= length -> p + length <= hi -> hi <= len inp -> is_class ty = true ->
+  0 <= lo <= p -> 0 <= length -> p + length <= hi -> hi <= len inp ->
+  class_ok ty (Z.min length 31) (firstn (Z.to_nat (Z.min length 31)) (skipn (Z.to_nat p) inp)) = true ->
   tok_at inp lo hi (mkTok p (Z.min length 31) cnt ty o c
                           (firstn (Z.to_nat (Z.min length 31)) (skipn (Z.to_nat p) inp))).
 Proof.
   intros H1 H2 H3 H4 H5. unfold tok_at. cbn [t_pos t_len t_val t_cat].
-  change c_token_size with 32. repeat split; try lia; try assumption.
+  change c_token_size with 32. splits; try lia; try assumption; reflexivity.
 Qed.
 
 Lemma skipn_nth_cons {A} (l : list A) n b : nth_error l n = Some b -> skipn n l = b :: skipn (S n) l.
@@ -140,7 +210,7 @@ Qed.
 
 (* a one-byte literal value equals the input byte it was dispatched on *)
 Lemma tok_at_assign_lit inp lo hi p ty cnt o c b :
-  0 <= lo <= p -> p + 1 <= hi -> hi <= len inp -> is_class ty = true ->
+  0 <= lo <= p -> p + 1 <= hi -> hi <= len inp -> class_ok ty 1 [b] = true ->
   nth_error inp (Z.to_nat p) = Some b ->
   tok_at inp lo hi (mkTok p (Z.min 1 31) cnt ty o c (firstn (Z.to_nat (Z.min 1 31)) [b])).
 Proof.
@@ -156,7 +226,7 @@ Definition dispatch_char_ok (b : byte) : bool :=
   | PHash => beq b x23
   | PDash => beq b x2d
   | PMoney => beq b x24
-  | PByte => is_class b && negb (beq b b_sqli_token_type_comment) && negb (beq b b_sqli_token_type_evil)
+  | PByte => is_class b && negb (beq b b_sqli_token_type_comment) && negb (beq b b_sqli_token_type_function)
   | PTick => beq b x60
   | PString => beq b x27 || beq b x22
   | PNumber => is_digit b || beq b x2e
